@@ -441,6 +441,11 @@ def handle (req : SExp) : Option SExp := do
       | none => list [atom "none"]
       | some w => list [atom "ok", ofRats w, ofRats (combine (ncols J) J w)])
   | "config" => pure (optVec (configVec J (← v "d") (← v "w") (ncols J)))
+  | "imtlgp" => pure (match imtlgWeightsP J (← v "d") (← q "guard") with
+      | none => list [atom "none"]
+      | some w => list [atom "ok", ofRats w, ofRats (combine (ncols J) J w)])
+  | "configp" => pure (optVec (configVecP J (← v "d") (← v "w") (ncols J)))
+  | "pinv" => pure (optVec (pinvApply J (← v "d")))
   | "aligned" =>
     let vecs ← ratMat? (← req.field1? "vecs")
     pure (match alignedWeights J vecs (← v "sigma") (← v "w") with
